@@ -183,6 +183,36 @@ impl Scheduler {
         (join, block_structures)
     }
 
+    /// Build the execution graph and the address map without starting any worker and dump them
+    /// (verification hook).
+    #[cfg(feature = "verif")]
+    pub(crate) fn verif_graph(&mut self) -> serde_json::Value {
+        use crate::verif::coord_str;
+        self.build_execution_graph();
+        self.network.build();
+        let mut blocks = vec![];
+        for (id, info) in self.block_info.iter() {
+            let mut replicas = vec![];
+            for (host, list) in info.replicas.iter() {
+                for c in list {
+                    replicas.push(serde_json::json!({"host": host, "coord": coord_str(*c),
+                        "gid": info.global_ids.get(c)}));
+                }
+            }
+            let next: Vec<_> = self
+                .next_blocks
+                .get(id)
+                .map(|n| n.iter().map(|(b, _, fragile)| serde_json::json!([b, fragile])).collect())
+                .unwrap_or_default();
+            blocks.push(serde_json::json!({"id": id, "repr": info.repr, "replicas": replicas,
+                "only_one": info.is_only_one_strategy, "next": next}));
+        }
+        let mut dump = self.network.verif_dump();
+        dump["blocks"] = serde_json::Value::Array(blocks);
+        dump["host"] = serde_json::json!(self.config.host_id());
+        dump
+    }
+
     #[cfg(feature = "tokio")]
     /// Start the computation returning the list of handles used to join the workers.
     pub(crate) async fn start(mut self, block_count: CoordUInt) {
